@@ -1290,6 +1290,7 @@ class StreamProtocol(asyncio.Protocol):
     write_event: asyncio.Event
     exception: Exception | None = None
     is_at_eof: bool = False
+    is_lost: bool = False
 
     def connection_made(self, transport: asyncio.BaseTransport) -> None:
         self.read_queue = deque()
@@ -1299,6 +1300,7 @@ class StreamProtocol(asyncio.Protocol):
         cast(asyncio.Transport, transport).set_write_buffer_limits(0)
 
     def connection_lost(self, exc: Exception | None) -> None:
+        self.is_lost = True
         if exc:
             self.exception = exc
 
@@ -1450,7 +1452,11 @@ class SocketStream(abc.SocketStream):
 
             self._transport.close()
             await sleep(0)
-            self._transport.abort()
+
+            # If the write buffer drained meanwhile, the transport has already finished
+            # closing and detached itself from the event loop; aborting it then fails
+            if not self._protocol.is_lost:
+                self._transport.abort()
 
 
 class _RawSocketMixin:
